@@ -48,7 +48,10 @@ func (g *Generator) makeJson() {
 			continue
 		}
 
-		jsonTag := trans(f.JSONTag())
+		jsonTag := f.JSONTag()
+		if !f.HasJSONTag() {
+			jsonTag = trans(jsonTag)
+		}
 		if ast.IsExported(f.name) {
 			if !f.HasJSONTag() && jsonTag != f.name {
 				needJSON = true
